@@ -1098,6 +1098,39 @@ def gen_fixrace_and_run(rng: Rng):
     return case, sc.out
 
 
+def gen_backups_and_run(rng: Rng):
+    """Repeated backups taken in different health: (damage | repair)* backup, change the health, backup again (refused while a
+    copy exists), sometimes delete the copy on the backup host / take the timestep-1 backup by a tick, then damage and restore:
+    what comes back must be the health of the backup that was STORED."""
+    def tweak(case):
+        case["bkcfg"] = True
+        case["clients"][0]["pw"] = case["srv_pw"]
+    sc = _Script(rng, "backups", tweak)
+    with instrumented(sc.rec):
+        w = World(sc.case, sc.rec)
+        e = lambda op: sc.emit(w, op)   # noqa: E731
+        e(["connect", 0])
+        for _ in range(rng.range(2, 5)):
+            act = [j for j, h in enumerate(sc.rec.handles) if h.is_active]
+            ch = rng.choice(["fcor", "frep", "DELETE", "ENCRYPT", "none", "frep"])
+            if ch in ("DELETE", "ENCRYPT"):
+                e(["hq", rng.choice(act), ch] if act else ["fcor"])
+            elif ch != "none":
+                e([ch])
+            e(["tick"] if rng.chance(1, 3) else ["backup"])
+            if rng.chance(1, 4):
+                e(["bkdel"])
+            if rng.chance(1, 3):
+                e(["tick"])
+        act = [j for j, h in enumerate(sc.rec.handles) if h.is_active]
+        e(["hq", rng.choice(act), rng.choice(["DELETE", "ENCRYPT"])] if act else ["fcor"])
+        e(["restore"])
+        if act:
+            e(["hq", rng.choice(act), "SELECT"])
+        e(["backup"])
+    return sc.case, sc.out
+
+
 def nontrivial(model: List[str]) -> bool:
     """A trace is non-trivial when it exercised something beyond plain successful connects/queries."""
     joined = "\n".join(model)
